@@ -230,6 +230,51 @@ def _slim(report):
     return acc
 
 
+def _interleave(ctx):
+    from concurrent.futures import ThreadPoolExecutor
+    ok, binary, blog = vlib.go_build("rutrace")
+    vlib.lake_build(vlib.LEAN / "core", ["rudriver"])
+    driver = vlib.lean_exe("core", "rudriver")
+    if not ok or not driver.exists():
+        return {"crash": "rutrace / rudriver not built: " + blog[-600:]}
+    total = 45 * (20 if ctx.thorough else 1)
+    chunks = vlib.ncpu() if ctx.thorough else 3
+    tracedir = vlib.VERIF / "replays" / "traces"
+
+    def one(k):
+        seed = ctx.seed * 7919 + 16 * 131 + k
+        rc, out, err = vlib.run([str(binary), "--seed", str(seed), "--scenarios", str(max(4, total // chunks)), "--profile", "interleave",
+                                 "--driver", str(driver), "--tracedir", str(tracedir)], timeout=2400 if ctx.thorough else 500)
+        try:
+            return seed, json.loads(out.strip().split("\n")[-1])
+        except Exception:
+            return seed, {"crash": (out + err)[-600:]}
+    with ThreadPoolExecutor(max_workers=chunks) as ex:
+        results = list(ex.map(one, range(chunks)))
+    res = {"scenarios": 0, "ticksync": 0, "synctick": 0, "syncsubmit": 0, "unserializable": 0, "failures": []}
+    seen = set()
+    for seed, s in results:
+        if "crash" in s:
+            res["crash"] = s["crash"]
+            continue
+        h = s.get("hist", {})
+        res["scenarios"] += s.get("scenarios", 0)
+        res["ticksync"] += h.get("op:ticksync", 0)
+        res["synctick"] += h.get("op:synctick", 0)
+        res["syncsubmit"] += h.get("op:syncsubmit", 0)
+        res["unserializable"] += h.get("ticksync:chain-no-fresh-node-adopts", 0)
+        for f in s.get("failures") or []:
+            sig = f"C16/interleave/{f['kind']}/{f['op']}"
+            if sig in seen:
+                continue
+            seen.add(sig)
+            res["failures"].append(vlib.failure(
+                "diff", sig, f"{f['kind']} at op {f['op']} (scenario {f['scenario']}, line {f['line']}): {f['text'][:600]}",
+                {"tool": "rutrace", "seed": f["seed"], "scenario": f["scenario"], "profile": "interleave", "line": f["line"],
+                 "failure": f["text"], "trace_file": f.get("trace_file")}, False))
+    return res
+
+
 # ------------------------------------------------------------------ C16
 
 def run(ctx):
@@ -352,6 +397,22 @@ def run(ctx):
             add(f)
         ctx.log(f"placements: {place['replayed']} replayed, {place['fired']} reached, {len(place['violations'])} violated")
     obligations.append({"name": "ruconc placements (decorated interfaces) ran", "ok": place is not None})
+
+    # operation-level interleavings of the core model against the real code (rutrace, profile interleave, monitors off):
+    # the model's stepTickSync / stepX candidates must contain the implementation's state after every such operation —
+    # the unserializable outcome of the known finding included (it is PREDICTED by the model, C16_tickSync_counterexample)
+    inter = _interleave(ctx)
+    if inter.get("crash"):
+        add(vlib.failure("diff", f"{prop}/harness-crash/rutrace-interleave", inter["crash"], {"why": inter["crash"]}, False))
+    for f in inter.get("failures", []):
+        add(f)
+    obligations.append({"name": "core model = implementation through a round committing inside block production, a tick inside a "
+                                f"round, a submission inside a round ({inter.get('ticksync', 0)} + {inter.get('synctick', 0)} + "
+                                f"{inter.get('syncsubmit', 0)} such operations over {inter.get('scenarios', 0)} histories; "
+                                f"{inter.get('unserializable', 0)} ended in the chain of the known finding, as the model predicted)",
+                        "ok": not inter.get("crash") and not inter.get("failures")})
+    ctx.log(f"interleave: {inter.get('scenarios', 0)} histories, ticksync={inter.get('ticksync', 0)} "
+            f"(unserializable outcomes predicted: {inter.get('unserializable', 0)}), failures={len(inter.get('failures', []))}")
 
     if stress:
         nontrivial = sum(1 for r in stress["run_summaries"] if r.get("race_reports", 0) > 0 or r.get("replaced") or r.get("admitted", 0) > 0)
